@@ -288,7 +288,24 @@ func directed(r *rng.R, ls []string, k int) ([]string, string) {
 		}
 		return ix[r.Intn(len(ix))]
 	}
-	switch k % 12 {
+	switch k % 14 {
+	case 12: // short lines with CR LF / lone CR line ends: the reader cuts at CR as well as at LF
+		for i := range out {
+			if r.Intn(2) == 0 {
+				out[i] = strings.TrimRight(out[i], " ")
+			}
+		}
+		if r.Intn(2) == 0 {
+			out[len(out)-1] += "\r"
+			return []string{strings.Join(out, "\r\n")}, "trailing blanks trimmed, CR LF"
+		}
+		return []string{strings.Join(out, "\r")}, "trailing blanks trimmed, CR"
+	case 13: // a CR in the middle of a record: the record is cut there
+		if i := pick(rng.Pick(r, []string{"6", "7", "5"})); i >= 0 {
+			lo := 20 + r.Intn(70)
+			out[i] = setCols(out[i], lo, "\r")
+			return out, fmt.Sprintf("CR at column %d of a record", lo+1)
+		}
 	case 0: // creation time no time: Parse keeps "", no rule rejects, FileCreationTimeField formats the clock
 		v := rng.Pick(r, []string{"9999", "2460", "    ", "12 4", "ab:d", "１２３４", "2959", "0000"})
 		out[0] = setCols(out[0], 29, v)
@@ -589,7 +606,7 @@ func run(args []string) {
 			}
 			emit(string(b), "byte noise")
 		default:
-			ls, what := directed(r, lineLists[r.Intn(len(lineLists))], r.Intn(12))
+			ls, what := directed(r, lineLists[r.Intn(len(lineLists))], r.Intn(14))
 			emit(strings.Join(ls, "\n")+"\n", what)
 		}
 	}
